@@ -66,8 +66,10 @@ inline void corpus_case(const Recipe& rc, const char* gen) {
       checked(); fail("corpus|" + G + "|" + F + "|" + P + "|deserialize-threw", rc.name + ": " + e.what());
       continue;
     }
-    const std::string diff = readout_diff(want, got);
+    unsigned lenient = 0;
+    const std::string diff = readout_diff(want, got, &lenient);
     VF_CHECK(diff.empty(), "corpus|" + G + "|" + F + "|" + P + "|readout-differs-from-recorded", rc.name + ": " + diff);
+    if (lenient) count("query_answer_fields_differing_from_recorded_" + G, lenient);
     count("corpus_" + G + "_" + P + "_path");
   }
   count("corpus_" + G + "_" + F);
@@ -100,8 +102,10 @@ inline void shipped_case(const Shipped& sh) {
     const std::string P = stream ? "stream" : "bytes";
     try {
       const std::string got = sh.read(img, stream != 0);
-      const std::string diff = readout_diff(want, got);
+      unsigned lenient = 0;
+      const std::string diff = readout_diff(want, got, &lenient);
       VF_CHECK(diff.empty(), "shipped|" + sh.family + "|" + P + "|readout-differs-from-recorded", sh.name + ": " + diff);
+      if (lenient) count("query_answer_fields_differing_from_recorded_shipped", lenient);
     } catch (const std::exception& e) { checked(); fail("shipped|" + sh.family + "|" + P + "|deserialize-threw", sh.name + ": " + e.what()); }
     count("shipped_" + P + "_path");
   }
